@@ -1,6 +1,8 @@
 package parser
 
 import (
+	"math"
+
 	"github.com/goghcrow/yae/parser/ast"
 	"github.com/goghcrow/yae/parser/oper"
 	"github.com/goghcrow/yae/parser/pos"
@@ -73,7 +75,7 @@ func binaryL(p *parser, bp oper.BP, lhs ast.Expr, t *token.Token) ast.Expr {
 
 func binaryR(p *parser, bp oper.BP, lhs ast.Expr, t *token.Token) ast.Expr {
 	name := ast.Var(t.Lexeme, t.Pos)
-	rhs := p.expr(bp - 1)
+	rhs := p.expr(justBelow(bp))
 	rg := pos.Range(lhs, rhs)
 	return ast.Binary(name, oper.INFIX_R, lhs, rhs, rg)
 }
@@ -177,7 +179,7 @@ func parseQuestion(p *parser, bp oper.BP, l ast.Expr, t *token.Token) ast.Expr {
 	name := ast.Var(t.Lexeme, t.Pos)
 	m := p.expr(0)
 	p.mustEat(token.COLON)
-	r := p.expr(bp - 1)
+	r := p.expr(justBelow(bp))
 	rg := pos.Range(l, r)
 	return ast.Tenary(name, l, m, r, rg)
 }
@@ -238,3 +240,9 @@ func parseSubscript(p *parser, bp oper.BP, list ast.Expr, t *token.Token) ast.Ex
 //	}
 //	return ast.If(cond, then, els, pos_)
 //}
+
+// justBelow 小于 bp 的最大优先级: 右结合操作符的右操作数中只允许优先级 >= bp 的操作符
+// (bp-1 对小数优先级不成立, 也使优先级 < 1 的右结合操作符无法使用)
+func justBelow(bp oper.BP) oper.BP {
+	return oper.BP(math.Nextafter32(float32(bp), float32(math.Inf(-1))))
+}
